@@ -53,11 +53,18 @@ Lemma genesis_reward_on_schedule :
   ee_primary_reward genesis_epoch_ext = primary_epoch_reward default_params (ee_number genesis_epoch_ext).
 Proof. vm_compute. reflexivity. Qed.
 
-(* F: 64 or more halvings make [initial >> halvings] panic (overflow-checks):
-   epoch 560640 = 64 * 8760 of the default schedule *)
-Lemma primary_epoch_reward_64_halvings_refuted :
-  exists n, n < 2 ^ 24 /\ primary_epoch_reward default_params n = None.
+(* finding (repaired by fix: commit 2ebd8bf in /repo): before the fix 64 or more
+   halvings made [initial >> halvings] panic (overflow-checks): epoch
+   560640 = 64 * 8760 of the default schedule.  The repaired function answers 0. *)
+Lemma primary_epoch_reward_old_64_halvings_refuted :
+  exists n, n < 2 ^ 24 /\ primary_epoch_reward_old default_params n = None.
 Proof. exists (64 * DEFAULT_PRIMARY_EPOCH_REWARD_HALVING_INTERVAL). vm_compute. split; reflexivity. Qed.
+
+Lemma primary_epoch_reward_fixed_on_witness :
+  primary_epoch_reward default_params (64 * DEFAULT_PRIMARY_EPOCH_REWARD_HALVING_INTERVAL) = Some 0 /\
+  primary_epoch_reward default_params (47 * DEFAULT_PRIMARY_EPOCH_REWARD_HALVING_INTERVAL) = Some 1 /\
+  primary_epoch_reward default_params (2 ^ 64 - 1) = Some 0.
+Proof. vm_compute. repeat split; reflexivity. Qed.
 
 (* non-vacuity of the next_epoch_ext theorems: three concrete tail blocks of the
    default chain (genesis epoch with 25 uncles; epoch 8758 with 61 uncles and a
